@@ -1,10 +1,123 @@
 /-
   C02 — VMDK: every byte range of a sparse/flat extent reads as guest content.
 -/
-import Hv.Vmdk
+import HvProofs.Vmdk
 namespace Hv.C02
 open Hv Hv.Vmdk
 
+/-! extracted values = VMware Virtual Disk Format 1.1 / QEMU block/vmdk.c -/
 theorem SECTOR_SIZE_spec : Extracted.vmdk.SECTOR_SIZE = 512 := by decide
+theorem magics_spec :
+    Extracted.vmdk.VMDK_MAGIC = [0x4B, 0x44, 0x4D, 0x56] ∧ Extracted.vmdk.COWD_MAGIC = [0x43, 0x4F, 0x57, 0x44] ∧
+    Extracted.vmdk.SESPARSE_MAGIC = [0xBE, 0xBA, 0xFE, 0xCA] ∧ Extracted.vmdk.SESPARSE_CONST_HEADER_MAGIC = 0xCAFEBABE := by decide
+theorem flags_spec :
+    Extracted.vmdk.SPARSEFLAG_COMPRESSED = 0x10000 ∧ Extracted.vmdk.SPARSEFLAG_EMBEDDED_LBA = 0x20000 := by decide
+theorem kdmv_layout_spec :
+    Extracted.vmdk.VMDKSparseExtentHeader.size = 512 ∧
+    Extracted.vmdk.VMDKSparseExtentHeader.flags = ⟨8, 4, false, 0, 32⟩ ∧
+    Extracted.vmdk.VMDKSparseExtentHeader.capacity = ⟨12, 8, false, 0, 64⟩ ∧
+    Extracted.vmdk.VMDKSparseExtentHeader.grain_size = ⟨20, 8, false, 0, 64⟩ ∧
+    Extracted.vmdk.VMDKSparseExtentHeader.descriptor_offset = ⟨28, 8, false, 0, 64⟩ ∧
+    Extracted.vmdk.VMDKSparseExtentHeader.descriptor_size = ⟨36, 8, false, 0, 64⟩ ∧
+    Extracted.vmdk.VMDKSparseExtentHeader.num_grain_table_entries = ⟨44, 4, false, 0, 32⟩ ∧
+    Extracted.vmdk.VMDKSparseExtentHeader.primary_grain_directory_offset = ⟨56, 8, false, 0, 64⟩ := by decide
+theorem cowd_layout_spec :
+    Extracted.vmdk.COWDSparseExtentHeader.capacity = ⟨12, 4, false, 0, 32⟩ ∧
+    Extracted.vmdk.COWDSparseExtentHeader.grain_size = ⟨16, 4, false, 0, 32⟩ ∧
+    Extracted.vmdk.COWDSparseExtentHeader.primary_grain_directory_offset = ⟨20, 4, false, 0, 32⟩ ∧
+    Extracted.vmdk.COWDSparseExtentHeader.num_grain_directory_entries = ⟨24, 4, false, 0, 32⟩ ∧
+    COWD_GT_SIZE = 4096 := by decide
+theorem sesparse_layout_spec :
+    Extracted.vmdk.VMDKSESparseConstHeader.capacity = ⟨16, 8, false, 0, 64⟩ ∧
+    Extracted.vmdk.VMDKSESparseConstHeader.grain_size = ⟨24, 8, false, 0, 64⟩ ∧
+    Extracted.vmdk.VMDKSESparseConstHeader.grain_table_size = ⟨32, 8, false, 0, 64⟩ ∧
+    Extracted.vmdk.VMDKSESparseConstHeader.grain_directory_offset = ⟨128, 8, false, 0, 64⟩ ∧
+    Extracted.vmdk.VMDKSESparseConstHeader.grain_directory_size = ⟨136, 8, false, 0, 64⟩ ∧
+    Extracted.vmdk.VMDKSESparseConstHeader.grain_tables_offset = ⟨144, 8, false, 0, 64⟩ ∧
+    Extracted.vmdk.VMDKSESparseConstHeader.grains_offset = ⟨192, 8, false, 0, 64⟩ := by decide
+/-- **sesparse_literals**: the masks and shifts inside `_lookup_grain_table` / `_lookup_grain`
+    are the ones of QEMU's `vmdk_get_cluster_offset` (60-bit sector recombination) -/
+theorem sesparse_literals_spec :
+    GT_TYPE_MASK = 0xFFFFFFFF00000000 ∧ GT_ALLOCATED = 0x1000000000000000 ∧ GT_INDEX_MASK = 0xFFFFFFFF ∧
+    SE_ENTRY_BYTES = 8 ∧ G_HI_MASK = 0x0FFF000000000000 ∧ G_HI_SHIFT = 48 ∧ G_LO_MASK = 0x0000FFFFFFFFFFFF ∧
+    G_LO_SHIFT = 12 ∧ Extracted.vmdk.SESPARSE_GRAIN_TYPE_MASK = 0xF000000000000000 ∧
+    Extracted.vmdk.SESPARSE_GRAIN_TYPE_UNALLOCATED = 0 ∧ Extracted.vmdk.SESPARSE_GRAIN_TYPE_FALLTHROUGH = 0x1000000000000000 ∧
+    Extracted.vmdk.SESPARSE_GRAIN_TYPE_ZERO = 0x2000000000000000 ∧
+    Extracted.vmdk.SESPARSE_GRAIN_TYPE_ALLOCATED = 0x3000000000000000 ∧
+    FOOTER_BACK = 1024 ∧ LBA_HDR_LEN = 12 ∧ PLAIN_HDR_LEN = 4 := by decide
+
+/-- **sparse_read_correct** (hosted KDMV with header- or footer-located directory, COWD,
+    SE-sparse; uncompressed): for every well-formed extent — any capacity (also not a multiple
+    of the grain size), grain size, table size, grain states and physical placement — and
+    every sector range inside the extent, `read_sectors` returns exactly the guest bytes. -/
+theorem sparse_read_correct (v : Sparse) (pc : Nat → UInt8) (hwf : WF v) (hp : ParentOK v pc)
+    (sector count : Nat) (hs : v.sectorOffset ≤ sector) (hin : sector - v.sectorOffset + count ≤ v.capacity) :
+    v.readSectors sector count = .ok (slice (v.guest pc) ((sector - v.sectorOffset) * 512) (count * 512)) :=
+  sparse_readSectors_correct v pc hwf hp sector count hs hin
+
+/-- **getRuns_merge_sound** (the internal statement behind it): whatever run is pending, the
+    runs produced for the rest of the request execute to the guest bytes of the whole range;
+    a merged run is therefore physically contiguous and of one kind. -/
+theorem getRuns_merge_sound (v : Sparse) (pc : Nat → UInt8) (hwf : WF v) (hp : ParentOK v pc)
+    (fuel rs rc : Nat) (cur : Option Cur) (start : Nat) (h1 : rc ≤ fuel) (h2 : rs + rc ≤ v.capacity)
+    (h3 : CurOK v pc start rs rc cur) :
+    ∃ runs, v.getRunsLoop fuel rs rc cur = .ok runs ∧
+      v.execRuns runs = .ok (slice (v.guest pc) (start * 512) ((rs - start + rc) * 512)) :=
+  getRuns_exec v pc hwf hp fuel rs rc cur start h1 h2 h3
+
+/-- **vmdk_backendOK / vmdk_stream_correct**: a single extent opened as `VMDK(fh)`; any
+    capacity (in particular not a multiple of the stream buffer), any buffer size that is a
+    multiple of the sector size. -/
+theorem vmdk_backendOK (v : Sparse) (pc : Nat → UInt8) (hwf : WF v) (hp : ParentOK v pc)
+    (hoff : v.sectorOffset = 0) (align : Nat) (ha : align % 512 = 0) :
+    BackendOK (v.capacity * 512) align (single (sparseDisk v)).read (v.guest pc) :=
+  sparse_backendOK v pc hwf hp hoff align ha
+
+theorem vmdk_stream_correct (v : Sparse) (pc : Nat → UInt8) (hwf : WF v) (hp : ParentOK v pc)
+    (hoff : v.sectorOffset = 0) (align : Nat) (ha : align % 512 = 0) (hpos : 0 < align) (ops : List Op) :
+    AS.run (single (sparseDisk v)).read (AS.init (v.capacity * 512) align) ops
+      = Spec.run (v.guest pc) ⟨v.capacity * 512, 0⟩ ops :=
+  AS.run_refines ops _ (AS.init_inv _ _ hpos) (sparse_backendOK v pc hwf hp hoff align ha)
+
+theorem vmdk_wfb_sound (v : Sparse) (h : v.wfbU = true) : WF v := wfbU_sound v h
+
+/-- **getRuns_progress** (C11 obligation): `get_runs` terminates for arbitrary contents -/
+theorem getRuns_progress (v : Sparse) (rs rc : Nat) (cur : Option Cur) :
+    v.getRunsLoop rc rs rc cur ≠ .error .nonTermination :=
+  getRunsLoop_progress v rc rs rc cur (Nat.le_refl _)
+
+/-- **flat_read_correct**: a flat extent reads as the file bytes -/
+theorem flat_read_correct (fh : File) (so sector count : Nat) (h : so ≤ sector) :
+    (rawDisk fh none so).readSectors sector count = .ok (fh.read ((sector - so) * 512) (count * 512)) := by
+  simp only [rawDisk]
+  have : ¬ sector < so := by omega
+  simp [this]; rfl
+
+/-- sparse_read_correct_partial: compressed (stream-optimised) extents are covered by the
+    executable model and the correspondence, not yet by a theorem: the statement above with
+    `WF.uncompressed` dropped and `guest` reading from the inflated grain is the missing part. -/
+theorem compressed_run_progress (v : Sparse) : ∀ fuel t off rc, rc ≤ fuel → off < v.grainSize →
+    (∀ s, v.readCompressedGrain s ≠ .error .nonTermination) →
+    v.readCompressedRun fuel t off rc ≠ .error .nonTermination := by
+  intro fuel
+  induction fuel with
+  | zero =>
+    intro t off rc h _ _
+    have : rc = 0 := by omega
+    subst this; simp [Sparse.readCompressedRun]
+  | succ fuel ih =>
+    intro t off rc hl hoff hg
+    unfold Sparse.readCompressedRun
+    by_cases hz : rc = 0
+    · simp [hz]
+    · simp only [hz, if_false]
+      cases hb : v.readCompressedGrain t with
+      | error e => simp only [bind, Except.bind]; intro h; cases h; exact hg t hb
+      | ok buf =>
+        simp only [bind, Except.bind]
+        have := ih (t + v.grainSize) 0 (rc - min rc (v.grainSize - off)) (by omega) (by omega) hg
+        cases hr : v.readCompressedRun fuel (t + v.grainSize) 0 (rc - min rc (v.grainSize - off)) with
+        | error e => simp only; intro h; cases h; exact this hr
+        | ok _ => simp
 
 end Hv.C02
